@@ -111,7 +111,7 @@ const enumRule = "each evaluation is one faulted (or crashed) execution: for a s
 
 func init() {
 	propInfo["C04"] = &PropInfo{Level: "fault_enumeration", Rule: enumRule, Assumptions: append([]string{"store failures are injected at the store.Store/Tx/Cursor seam: the failing call returns an error without reaching the backend (for Commit the inner transaction is rolled back first: commit failed => nothing applied). Seek, Cursor(), Rollback and Close are not failed: the shipped adapters never fail them and the property does not list them"}, commonAssumptions...), RequiredProbes: []string{"fault-begin", "fault-get", "fault-set", "fault-delete", "fault-item", "fault-commit", "duplicate-id-at-batch-position>0", "malformed-id-at-batch-position>0", "update-produces-invalid-doc"}}
-	propInfo["C05"] = &PropInfo{Level: "fault_enumeration", Rule: enumRule + "; crash engines: simulated disk = crash before/after every faultable store call; real bbolt / badger on disk = a child process executes the history and is SIGKILLed at a store-call position (and, for bbolt, at a file-syscall position via strace fault injection), the parent reopens the directory and compares with the model state after m or m+1 acknowledged operations", Assumptions: append([]string{"process-kill semantics only: the OS page cache survives, lost or torn sector writes (power loss) are outside the statement and are not injected"}, commonAssumptions...), RequiredProbes: []string{"crash-with-writes-in-flight", "crash-op-absent", "crash-op-present", "clean-reopen"}}
+	propInfo["C05"] = &PropInfo{Level: "fault_enumeration", Rule: enumRule + "; crash engines: simulated disk = crash before/after every faultable store call, and (write operations) the executing goroutine unwinding at every faultable store call with the handle living on; real bbolt / badger on disk = a child process executes the history and is SIGKILLed at a store-call position (and, for bbolt, at a file-syscall position via strace fault injection), the parent reopens the directory and compares with the model state after m or m+1 acknowledged operations", Assumptions: append([]string{"process-kill semantics only: the OS page cache survives, lost or torn sector writes (power loss) are outside the statement and are not injected"}, commonAssumptions...), RequiredProbes: []string{"crash-with-writes-in-flight", "crash-op-absent", "crash-op-present", "clean-reopen"}}
 	extraJobs["C04"] = func(tier string) []Job {
 		return []Job{
 			{Engine: "fault", Backends: memAll, Quick: 1500, Thorough: 60000},
